@@ -225,71 +225,42 @@ theorem stepChunk_rtype (ir : IR) (ch : List Str) (edd : Bool) (t tail : Str) (c
 
 /-! ### the token tests of `parseRest` on the emitted lines -/
 
-theorem restTokens_eq : Doc.restTokens = [[':','p','a','r','a','m'], [':','t','y','p','e'], [':','r','e','t','u','r','n'], [':','r','t','y','p','e']] := by decide
-theorem allRestTokens_eq : allRestTokens = [[':','p','a','r','a','m'], [':','c','v','a','r'], [':','i','v','a','r'], [':','v','a','r'],
-    [':','t','y','p','e'], [':','r','a','i','s','e','s'], [':','r','e','t','u','r','n'], [':','r','t','y','p','e']] := by decide
-theorem otherTokens_eq : [":raises".toList, ":cvar".toList, ":ivar".toList, ":var".toList]
-    = [[':','r','a','i','s','e','s'], [':','c','v','a','r'], [':','i','v','a','r'], [':','v','a','r']] := by decide
-
 def isTok (l : Str) : Bool := Doc.restTokens.any (fun t => startsWith l t)
 def check1 (l : Str) : Bool := allRestTokens.any (fun t => contains (l.drop 1) t)
 def check2 (l : Str) : Bool := [":raises".toList, ":cvar".toList, ":ivar".toList, ":var".toList].any (fun t => startsWith l t)
 
-theorem any_false_of {α : Type} (l : List α) (p : α → Bool) (h : ∀ x ∈ l, p x = false) : l.any p = false := by
-  induction l with
-  | nil => rfl
-  | cons a as ih => simp only [List.any_cons, h a (by simp), ih (fun x hx => h x (by simp [hx])), Bool.or_self]
+theorem noTok_startsWith (l t : Str) (h : NoTok l) (ht : t ∈ allRestTokens) : startsWith l t = false := by
+  cases hs : startsWith l t with
+  | false => rfl
+  | true => have := contains_of_startsWith l t hs; rw [h t ht] at this; cases this
 
-theorem startsWith_colon_false (l t : Str) (h : ':' ∉ l) : startsWith l (':' :: t) = false := by
-  unfold startsWith
-  cases l with
-  | nil => rfl
-  | cons c cs =>
-    have : (':' == c) = false := by
-      cases hb : (':' == c) with
-      | false => rfl
-      | true => exact absurd (by simp [← beq_iff_eq.mp hb]) h
-    simp [List.isPrefixOf, this]
-
-theorem contains_false_of_notin (s : Str) (c : Char) (t : Str) (h : c ∉ s) : contains s (c :: t) = false := by
-  induction s with
-  | nil => rfl
-  | cons x xs ih =>
-    have hx : (c == x) = false := by
-      cases hb : (c == x) with
-      | false => rfl
-      | true => exact absurd (by simp [beq_iff_eq.mp hb]) h
-    simp only [contains, List.isPrefixOf, hx, Bool.false_and, Bool.false_or]
-    exact ih (fun e => h (by simp [e]))
-
-theorem allTok_shape : ∀ t ∈ allRestTokens, ∃ x r, t = ':' :: x :: r ∧ x ≠ ' ' := by
-  rw [allRestTokens_eq]
-  intro t ht
-  simp only [List.mem_cons, List.not_mem_nil, or_false] at ht
-  rcases ht with rfl | rfl | rfl | rfl | rfl | rfl | rfl | rfl <;> exact ⟨_, _, rfl, by decide⟩
-
-/-- lines without a colon pass all three tests -/
-theorem noColon_checks (l : Str) (h : ':' ∉ l) : isTok l = false ∧ check1 l = false ∧ check2 l = false := by
+/-- token-free lines pass all three tests -/
+theorem noTok_checks (l : Str) (h : NoTok l) : isTok l = false ∧ check1 l = false ∧ check2 l = false := by
+  have hm : ∀ t, t ∈ ([[':','p','a','r','a','m'], [':','c','v','a','r'], [':','i','v','a','r'], [':','v','a','r'],
+      [':','t','y','p','e'], [':','r','a','i','s','e','s'], [':','r','e','t','u','r','n'], [':','r','t','y','p','e']] : List Str) →
+      startsWith l t = false := by
+    intro t ht; exact noTok_startsWith l t h (by rw [allRestTokens_eq]; exact ht)
   refine ⟨?_, ?_, ?_⟩
   · unfold isTok; rw [restTokens_eq]
-    simp only [List.any_cons, List.any_nil, startsWith_colon_false l _ h, Bool.or_self]
+    simp only [List.any_cons, List.any_nil, hm _ (by simp), Bool.or_self]
   · unfold check1
     apply any_false_of
     intro t ht
-    obtain ⟨x, r, rfl, _⟩ := allTok_shape t ht
-    exact contains_false_of_notin _ _ _ (fun e => h (List.mem_of_mem_drop e))
+    cases hc : contains (l.drop 1) t with
+    | false => rfl
+    | true => have := contains_of_drop1 l t hc; rw [h t ht] at this; cases this
   · unfold check2; rw [otherTokens_eq]
-    simp only [List.any_cons, List.any_nil, startsWith_colon_false l _ h, Bool.or_self]
+    simp only [List.any_cons, List.any_nil, hm _ (by simp), Bool.or_self]
 
-theorem notok_line (a b : Str) (ha : ':' ∉ a) (hb : ':' ∉ b) (x : Char) (r : Str) (hx : x ≠ ' ') :
-    contains (a ++ ':' :: ' ' :: b) (':' :: x :: r) = false := by
+theorem notok_line (a b : Str) (ha : ':' ∉ a) (x : Char) (r : Str) (hx : x ≠ ' ')
+    (hb : contains b (':' :: x :: r) = false) : contains (a ++ ':' :: ' ' :: b) (':' :: x :: r) = false := by
   induction a with
   | nil =>
     have hxs : (x == ' ') = false := by simpa using hx
     simp only [List.nil_append, contains, List.isPrefixOf, hxs, Bool.false_and, Bool.and_false, Bool.false_or]
     have : (':' == ' ') = false := by decide
     simp only [this, Bool.false_and, Bool.false_or]
-    exact contains_false_of_notin _ _ _ hb
+    exact hb
   | cons c cs ih =>
     have hc : (':' == c) = false := by
       cases hb' : (':' == c) with
@@ -304,39 +275,40 @@ structure EntryLine (l : Str) : Prop where
   c1 : check1 l = false
   c2 : check2 l = false
 
-theorem entryLine_of (l a b : Str) (hl : l.drop 1 = a ++ ':' :: ' ' :: b) (ha : ':' ∉ a) (hb : ':' ∉ b)
+theorem entryLine_of (l a b : Str) (hl : l.drop 1 = a ++ ':' :: ' ' :: b) (ha : ':' ∉ a) (hb : NoTok b)
     (htok : isTok l = true) (hc2 : check2 l = false) : EntryLine l := by
   refine ⟨htok, ?_, hc2⟩
   unfold check1
   apply any_false_of
   intro t ht
-  obtain ⟨x, r, rfl, hx⟩ := allTok_shape t ht
-  rw [hl]; exact notok_line a b ha hb x r hx
+  have hbt := hb t ht
+  obtain ⟨x, r, rfl, hx, _⟩ := allTok_shape t ht
+  rw [hl]; exact notok_line a b ha x r hx hbt
 
 theorem notin_append {c : Char} {a b : Str} (ha : c ∉ a) (hb : c ∉ b) : c ∉ a ++ b := by
   intro h; rcases List.mem_append.mp h with h | h
   · exact ha h
   · exact hb h
 
-theorem paramLine_entry (name doc : Str) (hn : ':' ∉ name) (hd : ':' ∉ doc) : EntryLine (paramLine name doc) := by
+theorem paramLine_entry (name doc : Str) (hn : ':' ∉ name) (hd : NoTok doc) : EntryLine (paramLine name doc) := by
   apply entryLine_of _ (['p','a','r','a','m',' '] ++ name) doc (by simp [paramLine, pfxParam]) (notin_append (by decide) hn) hd
   · unfold isTok; rw [restTokens_eq]; simp [paramLine, pfxParam, startsWith, List.isPrefixOf]
   · unfold check2; rw [otherTokens_eq]; simp [paramLine, pfxParam, startsWith, List.isPrefixOf]
 
 theorem typeLine_entry (name t : Str) (hn : ':' ∉ name) (ht : ':' ∉ t) : EntryLine (typeLine name t) := by
   apply entryLine_of _ (['t','y','p','e',' '] ++ name) (bt3 ++ t ++ bt3) (by simp [typeLine, pfxType]) (notin_append (by decide) hn)
-    (notin_append (notin_append (by decide) ht) (by decide))
+    (noTok_of_noColon _ (notin_append (notin_append (by decide) ht) (by decide)))
   · unfold isTok; rw [restTokens_eq]; simp [typeLine, pfxType, startsWith, List.isPrefixOf]
   · unfold check2; rw [otherTokens_eq]; simp [typeLine, pfxType, startsWith, List.isPrefixOf]
 
-theorem returnLine_entry (doc : Str) (hd : ':' ∉ doc) : EntryLine (returnLine doc) := by
+theorem returnLine_entry (doc : Str) (hd : NoTok doc) : EntryLine (returnLine doc) := by
   apply entryLine_of _ ['r','e','t','u','r','n'] doc (by simp [returnLine, pfxReturn]) (by decide) hd
   · unfold isTok; rw [restTokens_eq]; simp [returnLine, pfxReturn, startsWith, List.isPrefixOf]
   · unfold check2; rw [otherTokens_eq]; simp [returnLine, pfxReturn, startsWith, List.isPrefixOf]
 
 theorem rtypeLine_entry (t : Str) (ht : ':' ∉ t) : EntryLine (rtypeLine t) := by
   apply entryLine_of _ ['r','t','y','p','e'] (bt3 ++ t ++ bt3) (by simp [rtypeLine, pfxRtype]) (by decide)
-    (notin_append (notin_append (by decide) ht) (by decide))
+    (noTok_of_noColon _ (notin_append (notin_append (by decide) ht) (by decide)))
   · unfold isTok; rw [restTokens_eq]; simp [rtypeLine, pfxRtype, startsWith, List.isPrefixOf]
   · unfold check2; rw [otherTokens_eq]; simp [rtypeLine, pfxRtype, startsWith, List.isPrefixOf]
 
